@@ -71,7 +71,7 @@ Qed.
 
 Lemma tr_block_accepts ml : forall f gf glob top lm ld s D L ps D',
   implb ml (Nat.leb 1 ld) = true ->
-  glob = top && negb lm -> implb lm (no_top_tuple ps) = true ->
+  glob = top && negb lm -> implb lm (no_top_tuple D ps) = true ->
   g_block gf top D L ps = Some D' -> Dec D L s -> brk_l ml ld ps = true -> (S (sz ps) <= f)%nat ->
   exists ns s', tr_block ml f glob ld s ps = Some (ns, s').
 Proof.
@@ -82,10 +82,9 @@ Proof.
   pose proof (ssize_unfold p) as HSZ.
   destruct f as [|f']; [lia|]. remember (S f') as F eqn:HF.
   assert (Hnil : forall s0, tr_block ml F glob ld s0 [] = Some ([], s0)) by (intro s0; subst F; reflexivity).
-  assert (Htr : implb lm (no_top_tuple rest) = true).
-  { destruct lm; [|reflexivity]. cbn [implb no_top_tuple forallb] in Htup |- *.
-    apply andb_true_iff in Htup as [_ Htup]. exact Htup. }
-  assert (Htp : implb lm (no_top_tuple [p]) = true).
+  assert (Htr : implb lm (no_top_tuple D1 rest) = true).
+  { destruct lm; [|reflexivity]. cbn [implb] in Htup |- *. eapply no_top_tuple_tail; [eapply g_step_ext; exact HS|exact Htup]. }
+  assert (Htp : implb lm (no_top_tuple D [p]) = true).
   { destruct lm; [|reflexivity]. cbn [implb no_top_tuple forallb] in Htup |- *.
     apply andb_true_iff in Htup as [Htup _]. rewrite Htup. reflexivity. }
   (* the head alone *)
@@ -95,8 +94,12 @@ Proof.
     - destruct (tr_assign glob x e s) as [a b]. eexists; eexists; rewrite ?Hnil; reflexivity.
     - eexists; eexists; rewrite ?Hnil; reflexivity.
     - (* tuple *)
-      cbn [g_step] in HS. destruct (top && tuple_decl_ok D L xs es) eqn:Hk; [|discriminate].
-      apply andb_true_iff in Hk as [_ Hk]. destruct (tuple_decl_ok_inv _ _ _ _ Hk) as (Hlen & _).
+      cbn [g_step] in HS.
+      assert (Hlen : length xs = length es).
+      { destruct (tuple_asg_ok D L xs es) eqn:Hq.
+        - apply tuple_asg_ok_inv in Hq as (_ & _ & Hq). apply tuple_asg_tys_inv in Hq as [Hq _]. exact Hq.
+        - destruct (top && tuple_decl_ok D L xs es) eqn:Hk; [|discriminate].
+          apply andb_true_iff in Hk as [_ Hk]. destruct (tuple_decl_ok_inv _ _ _ _ Hk) as (Hlen & _). exact Hlen. }
       unfold tr_tuple. rewrite Hlen, Nat.leb_refl. cbn [negb].
       destruct (_ && glob).
       + destruct (tuple_global _ _ _) as [a b]. eexists; eexists; rewrite ?Hnil; reflexivity.
@@ -145,6 +148,7 @@ Proof.
       match type of HS with (if ?cnd then _ else _) = _ => destruct cnd eqn:Hc; [|discriminate] end.
       apply andb_true_iff in Hc as [Hc H8]. apply andb_true_iff in Hc as [Hc H7].
       apply andb_true_iff in Hc as [Hc H6]. apply andb_true_iff in Hc as [Hc H5].
+      apply andb_true_iff in Hc as [Hc H4t].
       apply andb_true_iff in Hc as [Hc H4]. apply andb_true_iff in Hc as [Hc H3].
       apply nested_true in H8. apply negb_true_iff in H3, H4.
       assert (Hnd : is_declared x s = false).
@@ -173,7 +177,7 @@ Proof.
   assert (HD1 : Dec D1 L s1).
   { assert (G1 : g_block (S gf') top D L [p] = Some D1).
     { rewrite g_block_cons, HS. destruct gf'; [discriminate HG|]. reflexivity. }
-    destruct (tr_block_simple ml _ _ glob top lm _ _ _ _ _ _ _ _ Hml HGL Htp G1 HD HEAD) as (_ & _ & X). exact X. }
+    destruct (tr_block_simple ml _ _ glob top lm _ _ _ _ _ _ _ _ Hml HGL Htp G1 HD HEAD) as (_ & _ & X & _). exact X. }
   destruct (IH gf' glob top lm ld s1 D1 L rest D' Hml HGL Htr HG HD1 HBr ltac:(lia)) as (ms & s2 & Er).
   exists (ns0 ++ ms), s2. rewrite (tr_block_cons _ _ _ _ _ _ rest _ _ Hnil HEAD), Er. reflexivity.
 Qed.
@@ -190,7 +194,7 @@ Proof.
   destruct (p_main p) as [body|]; [|eexists; reflexivity].
   apply andb_true_iff in HG as [HNT HG].
   destruct (g_block (bsize body) true D [] body) as [D2|] eqn:G2; [|discriminate].
-  destruct (tr_block_simple false _ _ true true false _ _ _ _ _ _ _ _ eq_refl eq_refl eq_refl G1 HD0 T1) as (_ & _ & S3).
+  destruct (tr_block_simple false _ _ true true false _ _ _ _ _ _ _ _ eq_refl eq_refl eq_refl G1 HD0 T1) as (_ & _ & S3 & _).
   destruct (tr_block_accepts true (bsize body) _ false true true 1 s1 D [] body D2 eq_refl eq_refl HNT G2 S3 HB2)
     as (loop & s2 & T2); [rewrite bsize_sz; lia|].
   rewrite T2. eexists; reflexivity.
